@@ -347,9 +347,9 @@ def pkg_text_of(m):
 # ---- universes ---------------------------------------------------------------------------------
 
 RVERS = ["1", "1.0", "1.1", "10", "2", "1_p1", "1_p", "1a"]
-RREVS = [None, "0", "1", "2", "10"]
+RREVS = [None, "0", "1", "10"]
 PVERS = ["0.9", "1", "1.0", "1.1", "1.10", "10", "11", "2", "1_p1", "1_p10", "1_pre", "1_p", "1a", "1.0.5"]
-PREVS = [None, "1", "2", "10", "11"]
+PREVS = [None, "1", "2", "11"]
 
 
 def all_ranges():
@@ -480,7 +480,7 @@ def plan(tier, seed):
     A.preload()
     tasks = [{"task": "single", "slice": i, "nslices": 6} for i in range(6)]
     tasks.append({"task": "arch"})
-    n, ex = (5, 300) if tier == "quick" else (16, 6000)
+    n, ex = (5, 200) if tier == "quick" else (16, 5000)
     for i in range(n):
         tasks.append({"task": "hyp", "examples": ex})
     return tasks
